@@ -115,6 +115,10 @@ def easterDate (year : Int) : R (Int × Int × Int) :=
   | .error e => .error e
   | .ok e => mkDate e.1 e.2.1 e.2.2
 
+/-- the value of an optional that is known not to be `None` at this point of the code (the translator emits it only inside
+    the else-branch of `x is None`, the body of `x is not None`, or after `x` was assigned a value) -/
+def the {α} [Inhabited α] (o : Option α) : α := o.getD default
+
 /-- `[v] * n` -/
 def repeatL {α} (v : α) (n : Int) : List α := List.replicate n.toNat v
 
